@@ -13,6 +13,7 @@
 -/
 import NiftyVerif.Model.Expr
 import NiftyVerif.Props.C03Ptw
+import NiftyVerif.Props.C03Sinc
 import NiftyVerif.Lemmas.ExprCalc
 
 set_option linter.unusedSimpArgs false
@@ -25,7 +26,7 @@ def PtwValid : Fn → List ℝ → ℝ → Prop
   | .sin, [], _ => True
   | .cos, [], _ => True
   | .tan, [], x => Real.cos x ≠ 0
-  | .sinc, [], x => x ≠ 0
+  | .sinc, [], _ => True
   | .exp, [], _ => True
   | .expm1, [], _ => True
   | .log, [], x => 0 < x
@@ -65,6 +66,11 @@ theorem ptw_hasDerivAt_softplus (x : ℝ) (h : x ≠ -33 ∧ x ≠ 33) :
     · exact ptw_hasDerivAt_softplus_mid x h1 h2
     · exact ptw_hasDerivAt_softplus_high x h2
 
+theorem ptw_hasDerivAt_sinc_all (x : ℝ) : HasDerivAt (fun v => val_sinc v) (der_sinc x) x := by
+  by_cases h : x = 0
+  · subst h; exact ptw_hasDerivAt_sinc_zero
+  · exact ptw_hasDerivAt_sinc x h
+
 /-- the table as the model dispatches it (`Fn.val`, `Fn.der`): every entry has the table's derivative on its range -/
 theorem ptw_table_hasDerivAt (f : Fn) (p : List ℝ) (x : ℝ) (h : PtwValid f p x) :
     HasDerivAt (fun v => f.val p v) (f.der p x) x := by
@@ -72,7 +78,7 @@ theorem ptw_table_hasDerivAt (f : Fn) (p : List ℝ) (x : ℝ) (h : PtwValid f p
     simp only [Fn.val, Fn.der] <;>
     first
     | exact ptw_hasDerivAt_sqrt x h | exact ptw_hasDerivAt_sin x | exact ptw_hasDerivAt_cos x
-    | exact ptw_hasDerivAt_tan x h | exact ptw_hasDerivAt_sinc x h | exact ptw_hasDerivAt_exp x
+    | exact ptw_hasDerivAt_tan x h | exact ptw_hasDerivAt_sinc_all x | exact ptw_hasDerivAt_exp x
     | exact ptw_hasDerivAt_expm1 x | exact ptw_hasDerivAt_log x h | exact ptw_hasDerivAt_log10 x h
     | exact ptw_hasDerivAt_log1p x h | exact ptw_hasDerivAt_sinh x | exact ptw_hasDerivAt_cosh x
     | exact ptw_hasDerivAt_tanh x | exact ptw_hasDerivAt_sigmoid x | exact ptw_hasDerivAt_reciprocal x h
